@@ -57,6 +57,12 @@ Definition sbe (n : Z) (bs : bytes) : Z :=
 Definition need (n : nat) (bs : bytes) : result (bytes * bytes) :=
   match take_n n bs with Some p => Ok p | None => Err EUnexpEof end.
 
+(* a count or index read from the input is compared with what is there before it is used as a
+   nat (n values need at least n bytes; an index must be below the table size) *)
+Definition nth_z {A} (l : list A) (i : Z) : option A :=
+  if (i <? 0) || (Z.of_nat (length l) <=? i) then None else nth_error l (Z.to_nat i).
+Definition count_ok (n : Z) (r : bytes) : bool := (0 <=? n) && (n <=? Z.of_nat (length r)).
+
 (* ---- scalars, straight from the formulas of the document ---- *)
 Definition is_int_tag (t : Z) : bool := rng 128 191 t || rng 192 207 t || rng 208 215 t || (t =? 73).
 Definition parse_int (t : Z) (r : bytes) : result (Z * bytes) :=
@@ -186,8 +192,7 @@ Definition parse_type (fuel : nat) (st : pstate) (bs : bytes) : result (name * b
       do (s, r') <- parse_string fuel t r ;; Ok (s, r', st_add_type st s)
     else if is_int_tag t then
       do (i, r') <- parse_int t r ;;
-      if i <? 0 then Err ECodec else
-      match nth_error (ptypes st) (Z.to_nat i) with
+      match nth_z (ptypes st) i with
       | Some s => Ok (s, r', st)
       | None => Err ECodec
       end
@@ -227,8 +232,7 @@ Section Step.
     end.
 
   Definition object_of (st : pstate) (idx : Z) (r : bytes) : pres hval :=
-    if idx <? 0 then Err ECodec else
-    match nth_error (pclasses st) (Z.to_nat idx) with
+    match nth_z (pclasses st) idx with
     | None => Err ECodec
     | Some (cname, fnames) =>
       do (y, st2) <- pn (length fnames) (st_open st) r ;; let '(vs, r2) := y in
@@ -256,13 +260,13 @@ Section Step.
       else if t =? 86 then                                     (* 'V' type int value* *)
         do (x, st1) <- parse_type fuel0 st r ;; let '(ty, r1) := x in
         do (n, r2) <- parse_int_value r1 ;;
-        if n <? 0 then Err ECodec else
+        if negb (count_ok n r2) then Err ECodec else
         do (y, st2) <- pn (Z.to_nat n) (st_open st1) r2 ;; let '(vs, r3) := y in Ok (HList (Some ty) vs, r3, st2)
       else if t =? 87 then                                     (* x57 value* 'Z' *)
         do (y, st2) <- pz (st_open st) r ;; let '(vs, r2) := y in Ok (HList None vs, r2, st2)
       else if t =? 88 then                                     (* x58 int value* *)
         do (n, r2) <- parse_int_value r ;;
-        if n <? 0 then Err ECodec else
+        if negb (count_ok n r2) then Err ECodec else
         do (y, st2) <- pn (Z.to_nat n) (st_open st) r2 ;; let '(vs, r3) := y in Ok (HList None vs, r3, st2)
       else if rng 112 119 t then                               (* [x70-x77] type value* *)
         do (x, st1) <- parse_type fuel0 st r ;; let '(ty, r1) := x in
@@ -279,7 +283,7 @@ Section Step.
       else if t =? 67 then
         do (cname, r1) <- parse_string_value fuel0 r ;;
         do (n, r2) <- parse_int_value r1 ;;
-        if n <? 0 then Err ECodec else
+        if negb (count_ok n r2) then Err ECodec else
         do (fs, r3) <- parse_strings fuel0 (Z.to_nat n) r2 ;;
         pv (st_add_class st (cname, fs)) r3
       (* objects *)
